@@ -17,7 +17,10 @@ a, b = Tag("a"), Tag("b")
 md = sqlalchemy.MetaData()
 tbl = sqlalchemy.Table("t", md, sqlalchemy.Column("a", sqlalchemy.Integer), sqlalchemy.Column("b", sqlalchemy.Integer))
 leaf = sq.make_leaf({a, b}, payload=sql.Payload(tbl, columns_available={a: tbl.c.a, b: tbl.c.b}), name="t")
-r = leaf.sorted([R.SortTerm(R.ColumnExpression.reference(b))]).with_only_columns({a}).without_duplicates().with_only_columns(set())
+try:
+    r = leaf.sorted([R.SortTerm(R.ColumnExpression.reference(b))]).with_only_columns({a}).without_duplicates().with_only_columns(set())
+except R.RelationalAlgebraError as e:
+    not_reproduced(f"the factory refuses the request: {e}")
 print("accepted tree:", r)
 node = r.target
 while not (isinstance(node, UnaryOperationRelation) and isinstance(node.operation, Sort)):
